@@ -233,7 +233,7 @@ def disk_tree(rng, max_entries=30, max_depth=5, types=("dir", "file", "symlink",
              "mt": rng.choice(MTIMES[:4] + [1234567890_987654321])}
         if d:
             e["t"] = "dir"
-            e["mode"] = rng.choice([0o755, 0o700, 0o1777, 0o2755, 0o750])
+            e["mode"] = rng.choice([0o755, 0o700, 0o1777, 0o2755, 0o750, 0o644, 0o600])
         else:
             r = rng.random()
             t = "file"
